@@ -48,7 +48,7 @@ int trylock_contract(myth_spinlock_t * l)
   __CPROVER_requires(l == &Q.lock && g_lock_held == 0)
   __CPROVER_assigns(g_lock_held, g_lock_calls)
   __CPROVER_ensures((__CPROVER_return_value == 1 && g_lock_held == 1 && !g_trylock_fails) || (__CPROVER_return_value == 0 && g_lock_held == 0 && g_trylock_fails))
-  __CPROVER_ensures(g_lock_calls == __CPROVER_old(g_lock_calls) + 1);
+  __CPROVER_ensures(g_lock_calls == __CPROVER_old(g_lock_calls) + (g_trylock_fails ? 0 : 1));
 void abort_contract(void)
   __CPROVER_requires(0 && "the overflow abort is reachable only when the queue is completely full (base == 0 and top == size), which the harness excludes")
   __CPROVER_assigns(g_abort_calls) __CPROVER_ensures(0);
